@@ -6,7 +6,9 @@ import PromProofs.HistSeries
 /-
   C11 — Native histograms are stored and read back faithfully (layout level).
   Property theorems only; the model is PromModel/Tsdb/HistLayout.lean, lemmas are in
-  PromProofs/HistLayout.lean.  The byte level (stage 2, `HistChunk`) is not modelled: it is covered by
+  PromProofs/HistLayout.lean, HistIdx*.lean (index-level specification of the expand/insert/adjust loops),
+  HistSide.lean, HistChunk.lean (chunk invariant), HistAppend.lean (all outcomes of AppendHistogram),
+  HistSeries.lean (head series, reading back).  The byte level (stage 2, `HistChunk`) is not modelled: it is covered by
   the differential only (every chunk in suite `hist` is a real encoded chunk that is decoded again).
 -/
 namespace Prom.C11
@@ -56,11 +58,10 @@ example : insertLoop false 2 0 0 [5, 7] [⟨1, 1, 0⟩] = .ok [5, 0, 7] := by rf
 /-- …and `insert` panics on leftover inserts that are not at the end, as the Go code does. -/
 theorem insert_panics_on_unsorted_witness : insert true [1, 2] 4 [⟨1, 1, 0⟩, ⟨0, 1, 0⟩] = .error .panic := by rfl
 
-/-- Full statement of `insert_preserves_buckets` at index level (kept visible): recoding a sample with
-    the forward inserts of `expandCounter`/`expandBoth` and the merged spans leaves `bucketMap`
-    unchanged.  Proved above: the value sequence; the index part (merged spans enumerate exactly the
-    union of both layouts) is `expand_sound_full` and is evaluated by the judge on every hook output
-    and implied on every generated sequence by `readback-*` (model = implementation, judge ok). -/
+/-- Full statement of `insert_preserves_buckets` at index level: recoding a sample with the forward inserts of
+    `expandCounter` leaves `bucketMap` unchanged.  Proved below (`insert_preserves_buckets`); the general form
+    for any layout pair, both insert directions and the gauge path is `Prom.Hist.insert_bucketMap` /
+    `applyIns_bucketMap` (PromProofs/HistSide.lean). -/
 def insert_preserves_buckets_full : Prop :=
   ∀ (float : Bool) (a b : List Span) (aB bB : List Int) (f bw : List Insert) (out : List Int),
     expandCounter float a b aB bB = .ok (some (f, bw)) → bw = [] →
@@ -88,8 +89,8 @@ theorem expand_sound_partial (float : Bool) (a b : List Span) (aB bB : List Int)
     PairsLe float ((idxs a).zip (absVals float aB)) ((idxs b).zip (absVals float bB)) :=
   expandCounter_no_decrease float a b aB bB r h
 
-/-- Full statement (not proved; the judge evaluates it on the real functions' outputs on every run:
-    `merged-spans`, `insert-order`, `insert-count`, `insert-idx`). -/
+/-- Full statement (proved below as `expand_sound`; the judge also evaluates it on the real functions' outputs on
+    every run: `merged-spans`, `insert-order`, `insert-count`, `insert-idx`). -/
 def expand_sound_full : Prop :=
   ∀ (a b : List Span), (idxs a).Pairwise (· < ·) → (idxs b).Pairwise (· < ·) →
     let (f, bw, m) := expandBoth a b
@@ -107,9 +108,10 @@ theorem expand_sound : expand_sound_full := by
   · intro i; rw [h2]; exact mem_mergeU_iff _ _ i
   · rw [h2]; exact mergeU_sorted _ _ ha hb
 
-/-- `append_roundtrip`, full statement (not proved beyond the first sample of every chunk — the two
-    theorems above; the judge evaluates exactly this predicate on what the real chunks, head and blocks
-    return, on every run). -/
+/-- `append_roundtrip` as originally written: over ALL `Hist` values and any `cuts` list.  Proved for valid
+    histograms (`append_roundtrip`, `append_roundtrip_zip`); false without validity
+    (`append_roundtrip_full_witness`).  The judge evaluates exactly this predicate on what the real chunks, head
+    and blocks return, on every run. -/
 def append_roundtrip_full : Prop :=
   ∀ (samples : List (Int × Hist)) (cuts : List Bool) (s : Series),
     (samples.zip cuts).foldlM (fun (st : Series) (p : (Int × Hist) × Bool) =>
